@@ -253,7 +253,7 @@ const SEED_PROGRAMS: [&str; 6] = [
 ];
 
 pub fn generate(seed: u64, n: usize, thorough: bool, corpus: Option<&str>) -> Vec<Case> {
-    let mut r = Rng::new(seed);
+    let mut r = Rng::new(crate::pre_gen::spread_seed(seed));
     let mut cases = vec![];
     let limit = Duration::from_millis(if thorough { 15000 } else { 3000 });
     let mut pool = Pool::new(limit, 4 << 20);
